@@ -31,6 +31,8 @@ package main
 import (
 	"fmt"
 	"strings"
+
+	"golang.org/x/tools/go/ssa"
 )
 
 var (
@@ -186,6 +188,7 @@ func (eng *Engine) assumeUsed(env *SpecEnv, uses []string, userProps []string, b
 			return fmt.Errorf("%s uses %s: %v", who, u, err)
 		}
 		env.fc.assume("true", t)
+		env.fc.assumes["uses lemma "+u+" (not an assumption: proved by this check as lemma:"+u+")"] = true
 	}
 	return nil
 }
@@ -335,4 +338,23 @@ func (e *SpecEnv) extRecLimitEnd(sf *SpecFn, name, decls, call string) {
 	delete(recRename[fc], name)
 	lim := "(" + name + "_lim" + strings.TrimPrefix(call, "("+name)
 	fc.ufAxioms[name] += fmt.Sprintf("\n(assert (forall (%s) (! (= %s %s) :pattern (%s))))", decls, lim, call, call)
+}
+
+// extInitGuard: builtin initguard() — the value of the package's `init$guard` flag (false until the synthetic package initializer
+// has started). A contract on the package initializer  `func init … ensures !old(initguard()) ==> E`  checks the initial values of
+// package-level variables against their initializer expressions, which justifies an `axiom E` about variables that are assigned
+// nowhere else.
+func (e *SpecEnv) extInitGuard() SV {
+	if e.pkg == nil {
+		e.fail("initguard(): no package")
+	}
+	sp := e.fc.eng.prog.Package(e.pkg)
+	if sp == nil {
+		e.fail("initguard(): no ssa package for %s", e.pkg.Path())
+	}
+	g, ok := sp.Members["init$guard"].(*ssa.Global)
+	if !ok {
+		e.fail("initguard(): package %s has no init$guard", e.pkg.Path())
+	}
+	return SV{t: e.fc.load(e.cur, e.fc.globalAddr(g), boolT), typ: boolT}
 }
